@@ -123,6 +123,10 @@ func (r *FuncResult) Query(o *Obl, getModel bool) string {
 		body.WriteString(c)
 		body.WriteByte('\n')
 	}
+	for _, d := range o.Local {
+		body.WriteString(d)
+		body.WriteByte('\n')
+	}
 	body.WriteString(o.Goal)
 	var b strings.Builder
 	pre := Preamble(r.Mode)
@@ -144,6 +148,10 @@ func (r *FuncResult) Query(o *Obl, getModel bool) string {
 	}
 	for _, c := range r.Cmds[:o.Prefix] {
 		b.WriteString(c)
+		b.WriteByte('\n')
+	}
+	for _, d := range o.Local {
+		b.WriteString(d)
 		b.WriteByte('\n')
 	}
 	fmt.Fprintf(&b, "(assert (not %s))\n(check-sat)\n", o.Goal)
@@ -223,6 +231,9 @@ func Discharge(rs []*FuncResult, dir string, timeout time.Duration, workers int,
 	var jobs []job
 	for _, r := range rs {
 		for i, o := range r.Obls {
+			if o.Presolved {
+				continue
+			}
 			jobs = append(jobs, job{r, o, i})
 		}
 	}
@@ -404,7 +415,25 @@ func StringSeparationLemma(P *Program) *Lemma {
 		SMT: fmt.Sprintf("(forall ((t String)) (not (= (str.++ t %q) %q)))", sig, pop)}
 }
 
-func LemmaObligations(prop string) []*FuncResult {
+func LemmaObligations(prop string) []*FuncResult { return LemmaObligationsFor(prop, nil) }
+
+// LemmaObligationsFor also selects the lemmas whose theory symbols occur in the verification conditions of rs.
+func LemmaObligationsFor(prop string, rs []*FuncResult) []*FuncResult {
+	usedSym := func(sym string) bool {
+		for _, r := range rs {
+			for _, c := range r.Cmds {
+				if strings.Contains(c, "("+sym+" ") {
+					return true
+				}
+			}
+			for _, o := range r.Obls {
+				if strings.Contains(o.Goal, "("+sym+" ") {
+					return true
+				}
+			}
+		}
+		return false
+	}
 	var out []*FuncResult
 	for _, bv := range []bool{false, true} {
 		r := &FuncResult{Key: "theory-lemmas", Mode: Mode{BV: bv}, Pos: "engine/internal/vc/theory.go", NoLemmas: true}
@@ -418,7 +447,16 @@ func LemmaObligations(prop string) []*FuncResult {
 					use = true
 				}
 			}
-			if use {
+			for _, sym := range l.Uses {
+				if !use && usedSym(sym) {
+					use = true
+				}
+			}
+			if use && len(l.Steps) > 0 {
+				for _, st := range l.Steps {
+					r.Obls = append(r.Obls, &Obl{Name: "lemma:" + l.Name + ":" + st.Name, Kind: "lemma", Func: r.Key, Goal: st.Goal, Pos: r.Pos, Local: st.Decls})
+				}
+			} else if use {
 				r.Obls = append(r.Obls, &Obl{Name: "lemma:" + l.Name, Kind: "lemma", Func: r.Key, Goal: l.SMT, Pos: r.Pos})
 			}
 		}
